@@ -224,7 +224,7 @@ func (f Int[T]) Round() Int[T] {
 	rem := f.Sub(value)
 	if rem.GreaterThanOrEqual(half) {
 		value = value.Add(one)
-	} else if rem.LessThan(negHalf) {
+	} else if rem.LessThanOrEqual(negHalf) {
 		value = value.Sub(one)
 	}
 	return value
